@@ -1,4 +1,5 @@
 ENTRY = dict(
+    gen=["parrots"],
     runner="C18", pkg="./cmd/c18", corr=["Corr.C18Corr"], n=dict(quick=300, thorough=2500), runner_timeout=1500,
     rule="spec classes: the 38 predefined parrots, reproducible randomized fingerprints (16 quick / 200 thorough, seeds from the run seed), "
          "fingerprinted copies (Fingerprinter on the class's own ClientHello, re-applied as HelloCustom), custom specs (hybrid-only, hybrid + "
